@@ -375,6 +375,21 @@ theorem inv_crossDevice (C : Ctx) (st : St) (key : Path × List UInt8) (sf : SFi
     | some cs =>
       rw [hd] at h
       simp only at h
+      have hi1' : Inv C st1.fs := by rw [h1]; exact hi
+      split at h
+      · -- the copy is preempted: the partial temporary is removed again
+        cases hp : fsPut st1.fs parent (C.env.tmpName st1.tmpCount (akeys cs))
+            (Node.file (sf.data.take copyPreemptionBytes) 0o600 0 0) false with
+        | none => rw [hp] at h; simp only [Prod.mk.injEq] at h; rw [← h.2]; exact hi1'
+        | some fs2 =>
+          rw [hp] at h
+          simp only at h
+          obtain ⟨hi2, hgt⟩ := inv_fsPut C st1.fs fs2 parent _ _ false hi1' (by simp) hp
+          rcases hu : opUnlink C.env { st1 with fs := fs2, tmpCount := st1.tmpCount + 1 } parent
+            (C.env.tmpName st1.tmpCount (akeys cs)) with ⟨b2, st4⟩
+          have := inv_opUnlink C _ parent _ b2 st4 hi2 hgt hu
+          rw [hu] at h
+          simp only [Prod.mk.injEq] at h; rw [← h.2]; exact this
       cases hp : fsPut st1.fs parent (C.env.tmpName st1.tmpCount (akeys cs)) (Node.file sf.data 0o600 0 0) false with
       | none => rw [hp] at h; simp only [Prod.mk.injEq] at h; rw [← h.2, h1]; exact hi
       | some fs2 =>
